@@ -50,6 +50,11 @@ func (vx *Vaxis) winch() {
 func (vx *Vaxis) reportWinsize() (Resize, error) {
 	if vx.caps.reportSizeChars && vx.caps.reportSizePixels {
 		log.Trace("requesting screen size from terminal")
+		// Discard a notification nobody collected (unsolicited report)
+		select {
+		case <-vx.chSizeDone:
+		default:
+		}
 		io.WriteString(vx.console, textAreaSize)
 		deadline := time.NewTimer(100 * time.Millisecond)
 		select {
